@@ -131,8 +131,28 @@ async def scenario(loop, case, fault_at, info):
                 plans[id_] = {"kind": kind, "exp": exp, "nexec": nexec, "rid": job.result_id, "ttl": kw.get("result_ttl"), "store": kw["store_result"]}
                 jobs[id_] = job
             worker = w.worker([r], tasks_limit=case["tl"], graceful_shutdown_time=6.0, handle_signals=[__import__("signal").SIGUSR1])
+            polled = {"n": 0}
+
+            async def poll_results():
+                # a producer that keeps asking the SAME Job objects for their result while the chain is still going on
+                while True:
+                    for j in jobs.values():
+                        try:
+                            if await j.result is not None:
+                                polled["n"] += 1
+                        except Exception:  # noqa: BLE001
+                            pass
+                    await asyncio.sleep(0.2)
+
+            poller = loop.create_task(poll_results())
             res = await run_worker(w, worker, horizon=9.5, poll=0.25)
             await asyncio.sleep(0.3)
+            poller.cancel()
+            try:
+                await poller
+            except BaseException:  # noqa: BLE001
+                pass
+            info["polled_results"] = polled["n"]
             info["worker"] = res
             info["plans"] = plans
             info["dispositions"] = {id_: [(e["op"], (e.get("params") or {}).get("tried")) for e in w.dispositions(id_)] for id_ in plans}
